@@ -495,6 +495,13 @@ func ruleC15Wrappers(c *Ctx, r *R) {
 					if cal := staticCallee(&call.Call); cal != nil && fname(cal) == "Iterate" && cal.Pkg != nil && strings.HasSuffix(cal.Pkg.Pkg.Path(), "internal/heap") {
 						calls = true
 					}
+					// ... or from the package's own Heap wrapper, which is under this very obligation (PriorityQueue built on
+					// xheap.Heap instead of on the inner heap)
+					if cal := staticCallee(&call.Call); cal != nil && origin(cal) != origin(fn) {
+						if hw := c.fn("container/xheap.Heap.Iterate"); hw != nil && origin(cal) == origin(hw) {
+							calls = true
+						}
+					}
 				}
 			})
 			if !calls {
